@@ -7,6 +7,15 @@ ticker's goroutine and the other on the walking goroutine, at least one of them 
 initialisation of a not-yet-shared object (keys of the `&walkContext{…}` literal: they precede the `go`
 statement).  The table is race-free at the translator's granularity when both sides of every conflicting
 pair are lexically inside a `statusMu.Lock()` … `Unlock()` region.
+
+TICKER LIFETIME assumed here (extractor/filesystem/filesystem.go, `RunFS`): every `RunFS` call that walks a whole tree starts ONE ticker
+goroutine and, when the walk is over, signals it (`close(quit)`) but does NOT wait for it; `filesystem.Run` calls `RunFS` once per scan
+root on ONE shared `walkContext`.  So the ticker of root i can still be inside `printStatus` while `RunFS` runs for root i+1, and an
+access made by `RunFS` itself — also one that textually precedes its own `go` statement, which the `go` statement orders before THAT
+root's ticker only — is concurrent with the previous root's ticker.  Accordingly `conflict` gives no happens-before exemption to
+anything in `RunFS` / `runOnScanRoot` / `UpdateScanRoot`: they are ordinary walker-side functions.  The only exempt accesses (`init`)
+are the keys of the `&walkContext{…}` literal in `InitWalkContext`, which runs once per `Run`, before the first `RunFS`, when no goroutine
+shares the object yet.  (If `RunFS` ever joins its ticker the condition merely becomes stricter than necessary.)
 -/
 namespace Scalibr.Ticker
 
